@@ -152,6 +152,12 @@ def aggtext(fn, src, n=None, nm=IDENT):
         return "%s()" % fn
     if fn == "shift":
         return "%s.shift(%d)" % (nm.c(src), n)
+    if fn == "nonagg":
+        return "%s + 1" % nm.c(src)
+    if fn == "complex":
+        return "%s.sum() + 1" % nm.c(src)
+    if fn == "argexpr":
+        return "(%s + 1).sum()" % nm.c(src)
     return "%s.%s()" % (nm.c(src), fn)
 
 
@@ -206,9 +212,10 @@ def apply_step(stack, st, descs, nm=IDENT):
         if st[3] > 0:
             kw["limit"] = st[3]
         new = top.order_rows([nm.c(c) for c in st[1]], **kw)
-    elif op == "join":
+    elif op in ("join", "joinc"):
         left = stack[-2]
-        new = left.natural_join(b=top, on=[(nm.c(p[0]), nm.c(p[1])) for p in st[2]], jointype=st[1])
+        kw = {"check_all_common_keys_in_equi_spec": True} if op == "joinc" else {}
+        new = left.natural_join(b=top, on=[(nm.c(p[0]), nm.c(p[1])) for p in st[2]], jointype=st[1], **kw)
         return stack[:-2] + [new]
     elif op == "concat":
         left = stack[-2]
@@ -235,7 +242,7 @@ def build(case, nm=IDENT, upto=None):
             stack = apply_step(stack, st, descs, nm)
             b.accepted.append(True)
             b.errors.append(None)
-        except (ValueError, KeyError, AssertionError, TypeError) as ex:
+        except Exception as ex:  # noqa: BLE001 - any exception at the builder call is a rejection
             b.accepted.append(False)
             b.errors.append("%s: %s" % (type(ex).__name__, str(ex)[:200]))
         b.tops.append(stack[-1])
